@@ -172,9 +172,10 @@ PROPS = {
         theorems=["Orbit.C12.no_message_panics", "Orbit.C12.listener_survives_any_stream", "Orbit.C12.only_complete_admitted_heads_loaded",
                   "Orbit.C12.later_valid_messages_handled", "Orbit.C12.listener_loop_handles_every_message", "Orbit.C12.a_loop_that_left_on_error_would_drop_later_messages", "Orbit.C12.no_length_prefix_panics",
                   "Orbit.C12.frame_guard_tied_to_go_text", "Orbit.C12.pinned_tree_panics",
-                  "Orbit.C12.null_batch_members_never_panic", "Orbit.C12.batch_accessor_tied_to_go_text", "Orbit.C12.null_batch_member_crashed_the_index_before_the_fix", "Orbit.C12.entries_that_are_not_operations_change_nothing", "Orbit.C12.event_log_windows_skip_what_is_not_an_operation_tied_to_go_text"],
+                  "Orbit.C12.null_batch_members_never_panic", "Orbit.C12.batch_accessor_tied_to_go_text", "Orbit.C12.null_batch_member_crashed_the_index_before_the_fix", "Orbit.C12.entries_that_are_not_operations_change_nothing", "Orbit.C12.event_log_windows_skip_what_is_not_an_operation_tied_to_go_text",
+                  "Orbit.C12.event_log_lists_the_operations_around_any_bound", "Orbit.C12.event_log_never_lists_what_is_not_an_operation", "Orbit.C12.event_log_of_operations_only_lists_as_before"],
         families=[("garbage", 120, 4000, 10), ("transport", 40, 1500, 6)],
-        corr_fields={"values", "heads", "idx", "len", "loadq", "rev"},
+        corr_fields={"values", "heads", "idx", "len", "loadq", "rev", "result"},
         nontrivial=lambda lines: sum(1 for l in lines if l.startswith("op garbage") and "kind=valid" not in l) >= 2,
         rule="structurally enumerated malformed exchange-heads messages (null / empty / ill-typed / partial heads, every subset of missing identity/clock/hash/next/refs/key/sig fields, truncations and bit flips of real messages, random bytes, deep nesting, wrong address) on the pubsub topic and the direct channel, interleaved with writes and valid messages; the process must survive (a panic is attributed to the running scenario), state must stay explained by valid entries, later valid messages must be handled; non-trivial = >= 2 malformed messages",
         trusted_base=["the bytes -> structure step of encoding/json is observed, not modelled"],
@@ -321,7 +322,7 @@ MANIFEST_TEXT = {
         note="Known finding K1 (listed, exhibited by the corpus on every run): a request racing with a still-unwinding pre-cancelled request can complete without the shared hash; the next request brings it. Known finding K2 (listed, exhibited by the corpus on every run): the liveness theorems assume that every fetch under a live context returns; a retried fetch of a block nobody serves does not, and while it hangs what later requests fetched stays in the replicator's buffer (kernel-checked on the model: no other move delivers it; replayed on the real replicator). Goroutine steps are modelled as atomic under the replicator mutex; timeouts are cancellations at a point.",
         technique="Lean 4 proof (inductive invariant over all schedules, potential-function termination) with hook/gate-driven differential harness"),
     "C12": dict(
-        text="Kernel-checked theorems from the decode result onward: no decoded message (any mix of null, empty, partial heads) makes Sync panic, only complete heads are loaded, the outcome for a message does not depend on what preceded it; no 64-bit length prefix makes the frame reader panic and accepted lengths are within the limit, with the guard regenerated from the Go text on every run. A PUTALL batch with `null` members (a validly signed entry any writer can publish) is indexed as the batch of its real members and never dereferenced (finding F25, fix: commit; accessor tied to the Go text). The pinned tree is refuted by decide-checked witnesses replayed on the real code before the fix: commits. The harness delivers structurally enumerated malformed messages on the topic and the direct channel and raw frames to the real stream handler; a panic kills the harness process and is attributed to the running scenario. An event log lists around an entry whose payload is not an operation (finding F48, fix: commit - every listing used to end, silently, at such an entry; the garbage family injects one into event logs and queries; the filter is regenerated from the Go text).",
+        text="Kernel-checked theorems from the decode result onward: no decoded message (any mix of null, empty, partial heads) makes Sync panic, only complete heads are loaded, the outcome for a message does not depend on what preceded it; no 64-bit length prefix makes the frame reader panic and accepted lengths are within the limit, with the guard regenerated from the Go text on every run. A PUTALL batch with `null` members (a validly signed entry any writer can publish) is indexed as the batch of its real members and never dereferenced (finding F25, fix: commit; accessor tied to the Go text). The pinned tree is refuted by decide-checked witnesses replayed on the real code before the fix: commits. The harness delivers structurally enumerated malformed messages on the topic and the direct channel and raw frames to the real stream handler; a panic kills the harness process and is attributed to the running scenario. An event log lists around an entry whose payload is not an operation (finding F48, fix: commit - every listing used to end, silently, at such an entry; the garbage family injects one into event logs and queries; the filter is regenerated from the Go text). The listing is proved to be exactly the operations on the asked side of the bound's POSITION, for every log and every bound, an operation or not (review of that repair, fix: commit - the first version filtered before it looked the bound up, so that a cursor on such an entry started the window at the first entry; query model and window predicate of the driver now take the whole log and which entries are operations).",
         note="The bytes -> structure step of encoding/json / CBOR is observed, not modelled (partial there); trusted: Lean kernel + standard axioms, the extractor, the hand-written decode model validated by the garbage family.",
         technique="Lean 4 proof (total outcome functions with explicit panic; BitVec frame guard tied by translator) with crash-attributing differential harness"),
     "C20": dict(
